@@ -113,6 +113,14 @@ class SdRunner(ScenarioRunner):
             if settings:
                 if scenario_manager in settings:
                     if scenario in settings[scenario_manager]:
+                        # Settings hold from this step on and must not change anything before it. Equations are evaluated
+                        # lazily, so a flow that is not among the requested equations would only be evaluated for the
+                        # interval before this step after the new values are in place: evaluate this step with the values
+                        # in force so far first, then forget only what was computed for the current time.
+                        sc.sd_simulation.start(output=["frame"], start=step, until=step, equations=equations)
+                        for memoised_values in sc.model.memo.values():
+                            for t in [t for t in memoised_values if isinstance(t, (int, float)) and abs(t - step) < 1e-9]:
+                                del memoised_values[t]
                         if "constants" in settings[scenario_manager][scenario]:
                             constants = settings[scenario_manager][scenario]["constants"]
                             for name, value in constants.items():
